@@ -14,6 +14,7 @@ import Driver.StoreMode
 import Driver.QuoteMode
 import Driver.RngMode
 import Driver.ItpMode
+import Driver.SearchMode
 /-! `osmt-model <mode> <file>`: line-protocol driver around the executable models and kernels. -/
 def main (args : List String) : IO UInt32 := do
   match args with
@@ -87,6 +88,10 @@ def main (args : List String) : IO UInt32 := do
   | ["itp", path] =>
     let txt ← IO.FS.readFile path
     for l in Driver.runItp (txt.splitOn "\n") do IO.println l
+    return 0
+  | ["search", path] =>
+    let txt ← IO.FS.readFile path
+    for l in Driver.runSearch (txt.splitOn "\n") do IO.println l
     return 0
   | ["itp2", path] =>
     let txt ← IO.FS.readFile path
